@@ -724,7 +724,7 @@ fn asn1_macro(m: &Model, ctx: &mut Ctx) {
                 let consts = const_resolver(m);
                 let hdr = m.consts.iter().find(|c| c.name == "DUMMY_HEADER").and_then(|c| lit_of(&c.expr));
                 let ftr = m.consts.iter().find(|c| c.name == "DUMMY_FOOTER").and_then(|c| lit_of(&c.expr));
-                for (label, text) in [("module", "M DEFINITIONS ::= BEGIN A ::= INTEGER END"), ("module", "M DEFINITIONS AUTOMATIC TAGS ::=BEGIN\nA ::= INTEGER\nEND"), ("snippet", "A ::= INTEGER")] {
+                for (label, text) in [("module", "M DEFINITIONS ::= BEGIN A ::= INTEGER END"), ("module", "M DEFINITIONS AUTOMATIC TAGS ::=BEGIN\nA ::= INTEGER\nEND"), ("snippet", "A ::= INTEGER"), ("snippet", "A ::= INTEGER B ::= A"), ("snippet", "A ::= INTEGER -- a number"), ("snippet", "a A ::= 5")] {
                     let t = text.to_string();
                     let hook = move |_: &Evaluator, name: &str, _: &[Val]| -> Option<Result<Val, String>> {
                         match name {
@@ -762,11 +762,20 @@ fn asn1_macro(m: &Model, ctx: &mut Ctx) {
                     }
                     match env.get(&var) {
                         Some(Val::Str(got)) => {
-                            let want = if label == "module" { text.to_string() } else {
-                                match (&hdr, &ftr) { (Some(Val::Str(h)), Some(Val::Str(f2))) => format!("{}{}{}", h, text, f2), _ => String::new() }
+                            // a full module passes through unchanged; a bare snippet becomes the body of the dummy module: header, the
+                            // snippet as written, the closing END — with a token boundary on both sides of the snippet (its last
+                            // token may be a reference, a number or a line comment, none of which END may be glued to)
+                            let ok = if label == "module" { *got == text } else {
+                                match &hdr {
+                                    Some(Val::Str(h)) => match got.strip_prefix(h.as_str()).and_then(|r| r.strip_prefix(text)) {
+                                        Some(rest) => h.ends_with(|c: char| c.is_whitespace()) && rest.trim() == "END" && rest.starts_with('\n'),
+                                        None => false,
+                                    },
+                                    _ => false,
+                                }
                             };
-                            if *got != want {
-                                ctx.violate("C20.macro", "wrapping", &f.file, f.line, &format!("asn1! on a {} hands `{}` to the compiler: a full module passes through unchanged, a bare snippet is wrapped in DUMMY_HEADER .. DUMMY_FOOTER and nothing else", label, got.chars().take(100).collect::<String>()));
+                            if !ok {
+                                ctx.violate("C20.macro", "wrapping", &f.file, f.line, &format!("asn1! on the {} `{}` hands `{}` to the compiler: a full module passes through unchanged, a bare snippet is wrapped in DUMMY_HEADER .. END with a line break between the snippet and END (`B ::= A` + `END` is the reference `AEND`, and a trailing `-- comment` swallows an END on the same line): the macro fails where the library compiles the same module", label, text, got.chars().skip(got.len().saturating_sub(40)).collect::<String>().replace('\n', "\\n")));
                             }
                         }
                         o => ctx.fail_closed("C20.macro", &format!("[asn1! {}]: the argument of add_asn_literal evaluates to {:?}", label, o.map(|v| v.show()))),
